@@ -310,8 +310,8 @@ Proof.
     destruct (spec_decode k r), (pct_decode r); simpl in *; intuition congruence.
 Qed.
 
-Lemma on_decode v d :
-  spec_decode false v = Some d -> unescape v SOn = d.
+Lemma on_decode fx7 v d :
+  spec_decode false v = Some d -> unescape fx7 v SOn = d.
 Proof.
   rewrite spec_decode_false. unfold unescape, path_unescape. intros ->. reflexivity.
 Qed.
@@ -402,7 +402,7 @@ Lemma spec_decode_esc k a b x y s :
   hexval a = Some x -> hexval b = Some y ->
   spec_decode k (String pct (String a (String b s))) =
   option_map (fun d => if k && Ascii.eqb (ascii_of_N (16 * x + y)) "/"
-                       then String pct (String a (String b d))
+                       then String pct (String "2" (String "F" d))
                        else String (ascii_of_N (16 * x + y)) d) (spec_decode k s).
 Proof. intros Ha Hb. unfold pct. simpl. rewrite Ha, Hb. reflexivity. Qed.
 
@@ -412,54 +412,114 @@ Proof.
   intro E. apply H. subst c. reflexivity.
 Qed.
 
-(** first replacement + PathUnescape, on a validly encoded value without a
-    lower-case "%2f" *)
-Lemma nd_first_half v :
-  valid_enc v -> contains "%2f" v = false ->
-  exists u d, pct_decode (replace_all v "%2F" marker) = Some u /\
+Lemma protect2_aux_0 c r :
+  protect2_aux 0 (String c r) =
+  if prefix "%2F" (String c r) || prefix "%2f" (String c r) then marker ++ protect2_aux 2 r
+  else String c (protect2_aux 0 r).
+Proof. reflexivity. Qed.
+
+Lemma prefix_2f_nonpct c r : c <> pct -> prefix "%2f" (String c r) = false.
+Proof.
+  intro H. rewrite prefix_cons. apply andb_false_iff. left. apply Ascii.eqb_neq.
+  intro E. apply H. subst c. reflexivity.
+Qed.
+
+(** C03-F7, on a value: a lower-case encoded slash (pinned tree only) *)
+Definition guard_F7_val (fx7 : bool) (v : string) : bool := negb fx7 && contains "%2f" v.
+
+(** first replacement + PathUnescape, on a validly encoded value (pinned: without a
+    lower-case "%2f") *)
+Lemma nd_first_half fx7 v :
+  valid_enc v -> guard_F7_val fx7 v = false ->
+  exists u d, pct_decode (protect fx7 v) = Some u /\
               spec_decode true v = Some d /\ rel u d.
 Proof.
-  unfold valid_enc, replace_all.
+  unfold valid_enc, guard_F7_val, protect, replace_all.
   induction v as [| c r Hc IH | a b r IH | | a] using pct_ind; intros Hv Hl.
-  - exists "", "". repeat split; constructor.
+  - exists "", "". destruct fx7; repeat split; constructor.
   - rewrite pct_decode_nonpct in Hv by assumption.
-    rewrite contains_cons in Hl. apply orb_false_iff in Hl as [_ Hl].
+    assert (Hl' : (negb fx7 && contains "%2f" r) = false).
+    { destruct fx7; [reflexivity|]. cbn [negb] in *. rewrite andb_true_l in *. rewrite contains_cons in Hl.
+      apply orb_false_iff in Hl as [_ Hl]. exact Hl. }
     destruct (pct_decode r) eqn:Er; [|simpl in Hv; congruence].
     destruct IH as (u & d & Hu & Hd & Hr); [congruence | assumption |].
     exists (String c u), (String c d).
-    rewrite replace_aux_0.
-    rewrite (prefix_2F_nonpct c r) by assumption.
-    rewrite pct_decode_nonpct, spec_decode_nonpct by assumption. rewrite Hu, Hd.
-    repeat split. constructor. assumption.
+    rewrite spec_decode_nonpct by assumption. rewrite Hd.
+    destruct fx7.
+    + rewrite protect2_aux_0, (prefix_2F_nonpct c r), (prefix_2f_nonpct c r) by assumption.
+      simpl orb. cbv iota. rewrite pct_decode_nonpct by assumption. rewrite Hu.
+      repeat split. constructor. assumption.
+    + rewrite replace_aux_0, (prefix_2F_nonpct c r) by assumption.
+      rewrite pct_decode_nonpct by assumption. rewrite Hu.
+      repeat split. constructor. assumption.
   - destruct (hexval a) as [x|] eqn:Ha; [|unfold pct in Hv; simpl in Hv; rewrite Ha in Hv; congruence].
     destruct (hexval b) as [y|] eqn:Hb; [|unfold pct in Hv; simpl in Hv; rewrite Ha, Hb in Hv; congruence].
     rewrite (pct_decode_esc _ _ _ _ _ Ha Hb) in Hv.
-    rewrite contains_cons in Hl. apply orb_false_iff in Hl as [Hl0 Hl].
-    rewrite !contains_cons in Hl. apply orb_false_iff in Hl as [_ Hl]. apply orb_false_iff in Hl as [_ Hl].
+    assert (Hl0 : (negb fx7 && prefix "%2f" (String pct (String a (String b r)))) = false).
+    { destruct fx7; [reflexivity|]. cbn [negb] in *. rewrite andb_true_l in *. rewrite contains_cons in Hl.
+      apply orb_false_iff in Hl as [Hl _]. exact Hl. }
+    assert (Hl' : (negb fx7 && contains "%2f" r) = false).
+    { destruct fx7; [reflexivity|]. cbn [negb] in *. rewrite andb_true_l in *. rewrite !contains_cons in Hl.
+      apply orb_false_iff in Hl as [_ Hl]. apply orb_false_iff in Hl as [_ Hl].
+      apply orb_false_iff in Hl as [_ Hl]. exact Hl. }
     destruct (pct_decode r) eqn:Er; [|simpl in Hv; congruence].
     destruct IH as (u & d & Hu & Hd & Hr); [congruence | assumption |].
     rewrite (spec_decode_esc _ _ _ _ _ _ Ha Hb), Hd. cbn [option_map].
-    rewrite replace_aux_0. rewrite !prefix_cons, prefix_nil_l, andb_true_r.
-    change (Ascii.eqb "%" pct) with true. rewrite andb_true_l.
-    destruct (Ascii.eqb "2" a && Ascii.eqb "F" b) eqn:E2F.
-    + apply andb_true_iff in E2F as [Ea Eb]. apply Ascii.eqb_eq in Ea, Eb. subst a b.
-      change (slen "%2F" - 1) with 2. change (replace_aux "%2F" marker 2 (String "2" (String "F" r)))
-        with (replace_aux "%2F" marker 0 r).
-      rewrite pct_decode_marker, Hu. cbn [option_map].
-      vm_compute in Ha. vm_compute in Hb. inversion Ha; inversion Hb; subst x y.
-      exists (marker ++ u), ("%2F" ++ d). repeat split. constructor. assumption.
-    + assert (Hns : Ascii.eqb (ascii_of_N (16 * x + y)) "/" = false).
+    assert (Hna := hexval_not_pct _ _ Ha). assert (Hnb := hexval_not_pct _ _ Hb).
+    (* is this escape an encoded slash the tree recognises? *)
+    destruct (Ascii.eqb "2" a && (Ascii.eqb "F" b || (fx7 && Ascii.eqb "f" b))) eqn:Erec.
+    + (* recognised: place-holder in [u], "%2F" in [d] *)
+      apply andb_true_iff in Erec as [Ea Eb]. apply Ascii.eqb_eq in Ea. subst a.
+      assert (Esl : Ascii.eqb (ascii_of_N (16 * x + y)) "/" = true).
+      { vm_compute in Ha. inversion Ha; subst x.
+        apply orb_true_iff in Eb as [Eb|Eb].
+        - apply Ascii.eqb_eq in Eb. subst b. vm_compute in Hb. inversion Hb. reflexivity.
+        - apply andb_true_iff in Eb as [_ Eb]. apply Ascii.eqb_eq in Eb. subst b.
+          vm_compute in Hb. inversion Hb. reflexivity. }
+      rewrite Esl. simpl andb. cbv iota.
+      exists (marker ++ u), ("%2F" ++ d).
+      split; [|split; [reflexivity | constructor; assumption]].
+      destruct fx7.
+      * rewrite protect2_aux_0.
+        replace (prefix "%2F" (String pct (String "2" (String b r))) || prefix "%2f" (String pct (String "2" (String b r)))) with true.
+        2:{ symmetry. rewrite !prefix_cons, !prefix_nil_l. rewrite andb_false_r, orb_false_r in Eb || idtac.
+            change (Ascii.eqb "%" pct) with true. simpl andb.
+            rewrite !andb_true_r. rewrite andb_true_l in Eb. exact Eb. }
+        change (protect2_aux 2 (String "2" (String b r))) with (protect2_aux 0 r).
+        rewrite pct_decode_marker, Hu. reflexivity.
+      * rewrite andb_false_l, orb_false_r in Eb. apply Ascii.eqb_eq in Eb. subst b.
+        rewrite replace_aux_0.
+        replace (prefix "%2F" (String pct (String "2" (String "F" r)))) with true.
+        2:{ symmetry. rewrite !prefix_cons, prefix_nil_l. reflexivity. }
+        change (slen "%2F" - 1) with 2.
+        change (replace_aux "%2F" marker 2 (String "2" (String "F" r))) with (replace_aux "%2F" marker 0 r).
+        rewrite pct_decode_marker, Hu. reflexivity.
+    + (* not recognised: then it is not an encoded slash at all *)
+      assert (Hns : Ascii.eqb (ascii_of_N (16 * x + y)) "/" = false).
       { apply Ascii.eqb_neq. intro E. destruct (slash_escape _ _ _ _ Ha Hb E) as [-> [-> | ->]].
-        - discriminate.
-        - rewrite !prefix_cons, prefix_nil_l in Hl0. discriminate. }
-      rewrite Hns. simpl andb.
-      assert (Hna := hexval_not_pct _ _ Ha). assert (Hnb := hexval_not_pct _ _ Hb).
-      rewrite replace_aux_0.
-      rewrite (prefix_2F_nonpct a) by assumption.
-      rewrite replace_aux_0.
-      rewrite (prefix_2F_nonpct b) by assumption.
-      rewrite (pct_decode_esc _ _ _ _ _ Ha Hb), Hu. cbn [option_map].
-      eexists _, _. repeat split. constructor. assumption.
+        - simpl in Erec. discriminate.
+        - destruct fx7; [simpl in Erec; discriminate|].
+          cbn [negb] in Hl0. rewrite andb_true_l, !prefix_cons, prefix_nil_l in Hl0. discriminate. }
+      rewrite Hns. rewrite andb_false_r. cbv iota.
+      exists (String (ascii_of_N (16 * x + y)) u), (String (ascii_of_N (16 * x + y)) d).
+      split; [|split; [reflexivity | constructor; assumption]].
+      destruct fx7.
+      * rewrite protect2_aux_0.
+        replace (prefix "%2F" (String pct (String a (String b r))) || prefix "%2f" (String pct (String a (String b r)))) with false.
+        2:{ symmetry. rewrite !prefix_cons, !prefix_nil_l, !andb_true_r.
+            change (Ascii.eqb "%" pct) with true. simpl andb.
+            rewrite andb_true_l in Erec. rewrite <- andb_orb_distrib_r. exact Erec. }
+        rewrite protect2_aux_0, (prefix_2F_nonpct a), (prefix_2f_nonpct a) by assumption. simpl orb. cbv iota.
+        rewrite protect2_aux_0, (prefix_2F_nonpct b), (prefix_2f_nonpct b) by assumption. simpl orb. cbv iota.
+        rewrite (pct_decode_esc _ _ _ _ _ Ha Hb), Hu. reflexivity.
+      * rewrite replace_aux_0.
+        replace (prefix "%2F" (String pct (String a (String b r)))) with false.
+        2:{ symmetry. rewrite !prefix_cons, prefix_nil_l, andb_true_r.
+            change (Ascii.eqb "%" pct) with true. simpl andb.
+            simpl in Erec. rewrite orb_false_r in Erec. exact Erec. }
+        rewrite replace_aux_0, (prefix_2F_nonpct a) by assumption.
+        rewrite replace_aux_0, (prefix_2F_nonpct b) by assumption.
+        rewrite (pct_decode_esc _ _ _ _ _ Ha Hb), Hu. reflexivity.
   - exfalso. apply Hv. reflexivity.
   - exfalso. apply Hv. reflexivity.
 Qed.
@@ -524,17 +584,14 @@ Proof.
     rewrite (IH (contains_app_false _ "%2F" _ Hg)). reflexivity.
 Qed.
 
-(** C03-F7, on a value: a lower-case encoded slash *)
-Definition guard_F7_val (v : string) : bool := contains "%2f" v.
-
 (** the capture decoding of `off` / `no_decode`: percent-decoded, "%2F" kept *)
-Lemma nd_decode v d :
-  spec_decode true v = Some d -> guard_F7_val v = false -> guard_F8_val d = false ->
-  nd_unescape v = d.
+Lemma nd_decode fx7 v d :
+  spec_decode true v = Some d -> guard_F7_val fx7 v = false -> guard_F8_val d = false ->
+  nd_unescape fx7 v = d.
 Proof.
   intros Hd H7 H8.
   assert (Hv : valid_enc v) by (apply (spec_decode_valid true); congruence).
-  destruct (nd_first_half v Hv H7) as (u & d' & Hu & Hd' & Hr).
+  destruct (nd_first_half fx7 v Hv H7) as (u & d' & Hu & Hd' & Hr).
   rewrite Hd in Hd'. inversion Hd'; subst d'.
   unfold nd_unescape, path_unescape. rewrite Hu. apply nd_second_half; assumption.
 Qed.
